@@ -136,8 +136,9 @@ static int32_t commit(struct jls_core_ts_s * self, int level, int mode) {
 
     if (!index || !summary_header || !index->header.entry_count) {
         return 0;
-    } else if (mode == COMMIT_MODE_NORMAL) {
-        ROE(alloc(self, level + 1));
+    } else if ((mode == COMMIT_MODE_NORMAL) && ((level + 1) < JLS_SUMMARY_LEVEL_COUNT)) {
+        // The highest level has no level above it: it simply keeps adding chunks to its list.
+        ROE(alloc(self, (uint8_t) (level + 1)));
     }
 
     // update headers
@@ -153,8 +154,8 @@ static int32_t commit(struct jls_core_ts_s * self, int level, int mode) {
                           self->track_type, level, p_start, len));
 
     // add to upper level and compute summary write
-    struct jls_index_s * index_up = self->index[level + 1];
-    struct jls_payload_header_s * summary_header_up = self->summary[level + 1];
+    struct jls_index_s * index_up = ((level + 1) < JLS_SUMMARY_LEVEL_COUNT) ? self->index[level + 1] : NULL;
+    struct jls_payload_header_s * summary_header_up = ((level + 1) < JLS_SUMMARY_LEVEL_COUNT) ? self->summary[level + 1] : NULL;
     if (index_up) {
         struct jls_index_entry_s * index_up_entry = &index_up->entries[index_up->header.entry_count++];
         index_up_entry->timestamp = index->entries[0].timestamp;
